@@ -1,4 +1,4 @@
-import MxlVerif.Lemmas.C12Perm
+import MxlVerif.Lemmas.C12JacRhs
 import MxlVerif.Model.C12Witness
 namespace Mxl.C12
 
@@ -36,6 +36,24 @@ theorem C12_formal_deriv_correct (ρ : Name → Rat) (x : Name) (h : Rat) (e : S
     (h0 : DenOK ρ e) (h1 : DenOK (upd ρ x (ρ x + h)) e) :
     evalS (upd ρ x (ρ x + h)) e = evalS ρ e + h * evalS ρ (D x e) + h * h * remV ρ x h e :=
   taylor2 ρ x h e h0 h1
+
+/-- **the symbolic Jacobian is the derivative of the numeric right-hand side.**  `jacobianOf es vn`
+    has `D vn[j] es[i]` in row `i`, column `j`.  Displace the `j`-th state value by any `h`: component
+    `i` of `Model.__call__` moves from `f` to `f + h·J[i][j] + h²·remV(h)` with the explicit rational
+    remainder of `C12_formal_deriv_correct` — for every well-formed model that converts, every time,
+    state, coordinate and step at which no denominator vanishes. -/
+theorem C12_jacobian_is_derivative_of_rhs (sc : SContent) (hwf : sc.wf = true) (t : Rat)
+    (xs : List Rat) (j : Nat) (h : Rat) (es : List SExpr) (ds0 dsh : List Rat) (hj : j < xs.length)
+    (hs : toSymbolic sc = .ok es)
+    (h0 : callRhs sc.toContent t xs = .ok ds0)
+    (hh : callRhs sc.toContent t (xs.set j (xs[j] + h)) = .ok dsh) :
+    ∃ cache x, createCache sc.toContent = .ok cache ∧ cache.varNames[j]? = some x ∧
+      ∀ (i : Nat) (e : SExpr), es[i]? = some e →
+        DenOK (symEnv sc cache xs) e → DenOK (upd (symEnv sc cache xs) x (xs[j] + h)) e →
+        ds0[i]? = some (evalS (symEnv sc cache xs) e) ∧
+        dsh[i]? = some (evalS (symEnv sc cache xs) e + h * evalS (symEnv sc cache xs) (D x e)
+                          + h * h * remV (symEnv sc cache xs) x h e) :=
+  jac_of_rhs sc hwf t xs j h es ds0 dsh hj hs h0 hh
 
 /-- **order independence (full statement).**  Take a well-formed model built from functions
     that translate, whose derived quantities and reactions mention only variables, plain
